@@ -402,6 +402,21 @@ def rand_c02(seed, tier, cases=None):
             cl = "rand_bitflip"
         prev = list(rng.choice(base)) if base and rng.random() < 0.8 else [rng.randint(0, 255) for _ in range(rng.randint(0, 40))]
         out.append(dict(fam="C02", kind="bytes", bytes=b, prev=prev if k % 5 else [], prefill=(k % 3 == 0), **{"class": cl}))
+    # announced extension lengths at and around the points where arithmetic in a narrower type would wrap (words * 4 passes
+    # 2^16 at 0x4000 words): short inputs that announce far more than they hold, with exactly / more than the wrapped
+    # amount of bytes behind the length word, and a few whole images with a block of 2^16 bytes and more
+    for w in [0x3FFF, 0x4000, 0x4001, 0x4002, 0x4010, 0x7FFF, 0x8000, 0x8001, 0xC000, 0xC003, 0xFFFE, 0xFFFF]:
+        wrapped = (w * 4) & 0xFFFF
+        for prof in ([0xBE, 0xDE], [0x10, 0x00], [0x12, 0x34]):
+            for cc in (0, 2):
+                for tail in sorted({0, wrapped, wrapped + 5, 20} if wrapped <= 64 else {0, 20}):
+                    b = [0x90 | cc, 96, 0, 7, 0, 0, 0, 1, 0, 0, 0, 2] + [9] * (4 * cc) + prof + [w >> 8, w & 255] + [rng.randint(0, 255) for _ in range(tail)]
+                    out.append(dict(fam="C02", kind="bytes", bytes=b, prev=list(rng.choice(base)) if base and rng.random() < 0.5 else [], prefill=False, **{"class": "announced_length"}))
+    for w in ([0x4000, 0x4001] if tier == "quick" else [0x4000, 0x4001, 0x8000, 0xFFFF]):
+        for prof in ([0x12, 0x34], [0xBE, 0xDE]):
+            body = [0] * (4 * w) if prof[0] == 0xBE else [rng.randint(1, 255) for _ in range(4 * w)]
+            b = [0x90, 96, 0, 7, 0, 0, 0, 1, 0, 0, 0, 2] + prof + [w >> 8, w & 255] + body + [1, 2, 3]
+            out.append(dict(fam="C02", kind="bytes", bytes=b, prev=[], prefill=False, **{"class": "announced_length_whole"}))
     # longer receiver histories: accepted and REJECTED inputs before the judged one (a rejected decode may leave
     # the receiver half-written): whole images, images cut inside the CSRC list / extension block / anywhere, X bit toggled
     for k in range(1500 if tier == "quick" else 30000 * TH):
@@ -1476,6 +1491,23 @@ prop(dict(
     rule="GROWTH: frames of H264 NAL units / AV1 OBUs (sizes around the per-packet budget) x MTU x start sequence number (incl. the wrap) through the whole sending pipeline "
          "(payloader -> Packetizer -> Packet.Marshal); the wire bytes are read by the specification alone (RtpWire!Parse, then H264!RefDepack / AV1Loss!RefRxR) and by the library's own receiver",
     assumptions=COMMON_ASSUME + ["not one of the listed properties: findings are reported in DESIGN.md 9.7, never as a listed property's violation"],
+))
+
+
+prop(dict(
+    id="G08", fam="G08", nondeterministic=True,
+    mc=[("SharedSeqMC.tla", "SharedSeqMC.cfg", {}), ("SharedSeqMC.tla", "SharedSeqMC_LocalCount.cfg", {}, "expect_violation"),
+        ("SharedSeqMC.tla", "SharedSeqMC_Unlocked.cfg", {}, "expect_violation")],
+    gen=[("SharedSeqGen.tla", "SharedSeqGen.cfg", {"thorough": {"Gs": "{2, 3, 4, 8, 16}", "CallsPer": "400", "Salts": "14"}})],
+    trace=("SharedSeqTrace.tla", "SharedSeqTrace.cfg"),
+    shards={"quick": 1, "thorough": 8},
+    nontrivial=lambda c: True,
+    class_of=lambda c: c["class"],
+    rule="GROWTH: 2-16 packetizers that share ONE sequencer, each driven from its own goroutine (40 / 400 calls of 0-4 packets each), started before, at and after the wrap; "
+         "TLC explores every interleaving of the model (3 packetizers x 2 calls x 2 numbers, modulus 16) and two specification mutants (numbers counted locally after the first draw "
+         "of a call; an unlocked draw) must violate it; each real run must be a behaviour of the model: no number twice, none skipped, own numbers ascending, roll-over count = zeros handed out",
+    assumptions=COMMON_ASSUME + ["not one of the listed properties: findings are reported in DESIGN.md 9.7, never as a listed property's violation",
+                                 "real schedules are sampled by running on 16 cores, not enumerated; all interleavings are enumerated on the model only"],
 ))
 
 
